@@ -31,7 +31,7 @@ def annotate(script_lines, impl_blocks):
         t = line.split()
         if not t or line.startswith("#"):
             continue
-        if t[0] in ("part", "authz"):
+        if t[0] in ("part", "authz", "cleanup"):
             continue
         block = impl_blocks[bi] if bi < len(impl_blocks) else []
         bi += 1
@@ -47,6 +47,8 @@ def annotate(script_lines, impl_blocks):
             for l in block:
                 if l.startswith("authorized "):
                     out.append("authz %s" % l.split()[1])
+            if "cleanup-timer" in block:
+                out.append("cleanup")
             for slot, msgs in sorted(per.items()):
                 if len(msgs) == 1 and not msgs[0]:
                     out.append("part %s -" % slot)
@@ -63,7 +65,7 @@ def run_model(annotated_lines, timeout=1800):
     return split_steps(out)
 
 
-HANDSHAKE = re.compile(r"^(cevt \d+ PHASH|evt \d+ PMISMATCH|authorized \d+|disconnect-request \S+)$")
+HANDSHAKE = re.compile(r"^(cevt \d+ PHASH|evt \d+ PMISMATCH|authorized \d+|disconnect-request \S+|cleanup-timer)$")
 
 
 def run_both(script_lines):
